@@ -25,6 +25,17 @@ CHECKS = {
          "combinations.",
          "Values are finite trees without getters/proxies or integer-like keys; projection/idempotence/key-order clauses are "
          "checked on generated inputs, not proved."),
+ "C04": ("Theorems on the one recursion of the pipeline that a model can carry (extract_union: flattening unions through nested "
+         "unions and named references, performed by printer and frontend without a visited set): it terminates with fuel h(t)+1 "
+         "whenever a height function exists (no named type reaches itself through unions/references only), for every environment; "
+         "the unrestricted claim is refuted by `type A = A | string`, which overflows the compiler's stack (known finding). The "
+         "property itself is decided by running the compiler: valid programs, one program per unsupported construct, token-level "
+         "mutations, enums across modules, missing/cyclic/self imports and a corpus of past failures, each in its own process under a "
+         "watchdog with a panic hook; outcome must be code or >=1 diagnostic whose file is in the project and whose range lies in "
+         "that file; every emitted module is imported in Node and must build every requested parser. Two genuine defects found by "
+         "this check were repaired in /repo (fix: commits c6ff09c, bf757f0).",
+         "swc's parser, malformed text and wall-clock promptness are outside any Gallina model; they are covered by the run (testing). "
+         "Only extract_union is modelled; the ~60 other expect/unreachable sites are exercised, not modelled."),
  "C06": ("Theorems (Coq, closed): for every truth assignment of the atoms — i.e. for every value, whatever lists and mappings denote — "
          "and every diagram (no bound on atoms, size, shape or ordering), BddOps::union/intersect/diff/complement and Bdd::from_node "
          "evaluate to the Boolean combination of their operands; bdd_to_dnf and dnf_to_bdd preserve evaluation; sub_vec_union/"
